@@ -318,6 +318,9 @@ func edgeDominates(from, succ, b *ssa.BasicBlock) bool {
 // render as their SSA name. Two loads with equal paths read the same location
 // (modulo intervening stores, which callers must rule out themselves).
 func PathOf(v ssa.Value) string {
+	if v == nil {
+		return "?"
+	}
 	switch x := v.(type) {
 	case *ssa.Parameter:
 		return x.Name()
